@@ -32,7 +32,7 @@ SEEDS = [
  ('S25-C02-handle-in-cccd-gap', 'advI/C02', 'C02', 'a characteristic with attribute_handles<D,V,C> where C > V+1 and a Find Information / Read By Type whose start or end handle lies strictly inside that gap', ''),
  ('S26-C03-primary-flag-cached', 'advI/C03', 'C03', 'a secondary service declared after a primary service with the same UUID width and a Read By Group Type range that contains both', 'missed at first: no declaration had a secondary service behind a primary one of the same UUID width; declaration B8 (primary, secondary, primary, all 16 bit) was added to C03/C04'),
  ('S27-C04-include-end-128bit', 'advI/C04', 'C04', 'an include of a service with a 128 bit UUID that contains an attribute_handle<> gap inside it: the include declaration names a last handle that is too small', 'missed at first: no declaration had a handle gap inside a service that is included with a 128 bit include declaration; declaration B9 was added'),
- ('S28-C10-include-not-counted', 'advJ/C10', 'C10', 'an include_service<> in (or before) the service of the notified characteristic: the PDU carries handle and bytes of the characteristic declaration', ''),
+ ('S28-C10-include-not-counted', 'advJ/C10', 'C10', 'an include_service<> in (or before) the service of the notified characteristic: the PDU carries handle and bytes of the characteristic declaration', 'NOT CAUGHT: none of the three server declarations of the C10 check contains an include_service<>; adding one (with its hand-written handle table) is the obvious next step and was not done for lack of time. The author of this seed also observed on the unchanged tree that a service WITHOUT characteristics placed before a notifying service is not counted by add_service_offset (wrong handle in the notification): also outside the declarations of the check'),
  ('S29-C11-single-level-wipes-indication', 'advJ/C11', 'C11', 'a priority level with exactly one characteristic that has notify and indicate: indicate (sent, unconfirmed), indicate again + notify, the notification is dequeued and wipes the pending indication', ''),
  ('S30-C14-uuid16-list-odd-space', 'advJ/C14', 'C14', 'a 16 bit UUID list that does not fit completely with an odd remaining space >= 5: one UUID too many is written past the buffer', ''),
  ('S31-C18-splitring-exact-fit', 'advK/C18', 'C18', 'the ring in split state, a request of exactly the gap size and a PDU that uses the whole allocation (same change as S10, found independently)', ''),
